@@ -480,9 +480,9 @@ func c08Kill(c *evid.Ctx, seed int64) {
 }
 
 func runC08(c *evid.Ctx) {
-	c.Rule("(a) sequential lock-step of Set/Get/SetUint64/GetUint64 (keys: standard, binary, 32768-byte, oversize, empty; values: nil, empty, 1B, 8B, 64KiB) interleaved with every log op template of C05 and clean reopens, comparing the stable model and the log bounds after every step, on simfs and on real BoltDB; (b) concurrent per-key register histories on real BoltDB while a writer appends/rotates/truncates, checked by porcupine partitioned by key, race detector on; (c) child processes on real fs + BoltDB doing Set and StoreLogs, SIGKILLed at random acknowledgement counts, three lifetimes per directory: every acknowledged Set must be readable after reopen; (d) under strace, no operation is acknowledged while writes to wal-meta.db are not followed by fdatasync (rule R7 of the C07 trace monitor); (e) children whose fdatasync / pwrite64 calls fail by strace error injection: a Set that returned nil must be readable in-process and after a fault-free reopen, a failed Set leaves the old or the new value; non-trivial = distinct (stable op, key/value class, preceding log op kind) contexts",
+	c.Rule("(a) sequential lock-step of Set/Get/SetUint64/GetUint64 (keys: standard, binary, 32768-byte, oversize, empty; values: nil, empty, 1B, 8B, 64KiB) interleaved with every log op template of C05 and clean reopens, comparing the stable model and the log bounds after every step, on simfs and on real BoltDB; (b) concurrent per-key register histories on real BoltDB while a writer appends/rotates/truncates, checked by porcupine partitioned by key, race detector on; (c) child processes on real fs + BoltDB doing Set and StoreLogs, SIGKILLed at random acknowledgement counts, three lifetimes per directory: every acknowledged Set must be readable after reopen; (d) under strace, no operation is acknowledged while writes to wal-meta.db are not followed by fdatasync (rule R7 of the C07 trace monitor); (e) children whose fdatasync / pwrite64 calls fail by strace error injection: a Set that returned nil must be readable in-process and after a fault-free reopen, a failed Set leaves the old or the new value; (f) power-loss images (subsets of the writes not yet followed by fsync, torn at 512-byte boundaries, prefixes of the pending directory operations) reconstructed from the strace of a Set-heavy child on real BoltDB: every acknowledged Set is readable from every image; non-trivial = distinct (stable op, key/value class, preceding log op kind) contexts",
 		"stable_ops", "op_contexts")
-	c.Assume("BoltDB key limits: empty and >32768-byte keys are errors that change nothing", "SIGKILL leaves the OS page cache intact (process-death model, not power loss)")
+	c.Assume("BoltDB key limits: empty and >32768-byte keys are errors that change nothing", "SIGKILL leaves the OS page cache intact (process-death model); power loss is covered by (d) and (f)")
 	nSeq, nConc, nKill := 200, 6, 3
 	if !quick(c) {
 		nSeq, nConc, nKill = 8000, 300, 60
@@ -529,6 +529,16 @@ func runC08(c *evid.Ctx) {
 			}
 			c08Faulty(c, c.Seed*911+int64(i), inj)
 		}
+		// (f) power-loss images of the production stack replayed from the syscall trace of a
+		// Set-heavy child: every acknowledged Set must be readable from every image
+		before = c.Get("replay_stable_keys_checked")
+		if quick(c) {
+			replayPart(c, 2, 30, 2, "stable")
+		} else {
+			replayPart(c, 12, 80, 1, "stable")
+		}
+		c.Count("stable_ops", c.Get("replay_stable_keys_checked")-before)
+		c.Distinct("op_contexts", "replay-power-loss")
 	} else {
 		c.Inconclusive("strace not available: durability of acknowledged Sets against power loss not observed")
 	}
